@@ -34,3 +34,8 @@ func VerifGetToken(buf []byte, pos int) (start, toktype int, useFlag string, new
 	start, toktype, useFlag = getToken(ac)
 	return start, toktype, useFlag, ac.Pos
 }
+
+// VerifUseDependencies returns the USE dependencies a dependency atom was decoded with.
+func VerifUseDependencies(da *DependAtom) []atom.UseDependency {
+	return atom.VerifUseDependencyList(da.useDependencies)
+}
